@@ -12,6 +12,10 @@ for key, (kid, dig) in sorted(rows.items()):
     if kid not in first or rank(cfg, rid) < rank(*first[kid]):
         first[kid] = (cfg, rid)
 NEW = {
+ "KF-RT-optional-prose-wraps-type": ("a parameter whose prose begins with the word Optional / (Optional) and whose declared type is not Optional[...]",
+    "the parser's heuristic for untyped docstrings (prose starting with 'Optional' means the parameter is optional) also fires when a type is declared: T comes back as Optional[T]; combined with KF-RT-fn-typ-from-default a declared Optional[Literal[..]] comes back as Optional[str]"),
+ "KF-RT-str-default-dot": ("a str default that contains a full stop ('x.y', '.bak'), default text on",
+    "the end-of-value scan of extract_default is not quote-aware (KF-C17-strdot): 'Defaults to \"x.y\"' is cut at the stop - the default comes back as 'x' (or '\"x'), the rest lands in the prose, and parse.function / the class emitter can then raise SyntaxError (unterminated string literal)"),
  "KF-RT-ret-untyped": ("a return entry that has prose but no type",
     "class annotates the reserved attribute `object` (read back as a type), google reads the prose line as the type, numpydoc writes the prose where the type belongs and reads 'Returns' / '-------' back as parameter names"),
  "KF-RT-ret-noprose": ("a return entry that has a type but no prose, numpydoc / google / function with inline_types=False",
